@@ -88,7 +88,18 @@ def mono_um(e):
     return float((e['w'] * u.Unit(e['unit'])).to(u.micron).value)
 
 
+RANDOM_DIRECTED = [
+    dict(exact=True),
+    dict(akind='on_knot', same_theta=True),
+    dict(tie=True, kinds=['mono', 'mono'], mono=['tie', 'between'], units=['micron', 'micron']),
+    dict(planted=True, kinds=['mono', 'mono', 'mono'], mono=['knot', 'between', 'knot'], units=['micron'] * 3, nsrc=1),
+]
+
+
 def gen_case(rng, directed=None):
+    if directed is None and rng.random() < 0.12:
+        # a share of the random cases is aimed at the rare branches, everything else about them stays random
+        directed = rng.choice(RANDOM_DIRECTED)
     directed = directed or {}
     nm = directed.get('nm', rng.randint(2, 5))
     names = set()
